@@ -22,7 +22,7 @@ func genAction(repo, outdir string) {
 	var sb strings.Builder
 	sb.WriteString("-- GENERATED from Builder/GoCodeTemplate.go and Builder/GoObjectTemplate.go; do not edit\nnamespace Gen\n\n")
 	sb.WriteString("def idx (l : List Int) (i : Int) : Int := if i < 0 then 0 else l.getD i.toNat 0\ndef len (l : List Int) : Int := (l.length : Int)\n\n")
-	re := regexp.MustCompile(`(?s)func \(s \*StateSym\) Action\(a int\) int \{.*?\n\}\n`)
+	re := regexp.MustCompile(`(?s)func \(\w+ \*StateSym\) Action\(\w+ int\) int \{.*?\n\}\n`)
 	for _, t := range [][2]string{{"Global", "Builder/GoCodeTemplate.go"}, {"Object", "Builder/GoObjectTemplate.go"}} {
 		src, err := os.ReadFile(repo + "/" + t[1])
 		if err != nil {
@@ -44,11 +44,12 @@ func genAction(repo, outdir string) {
 				fd = x
 			}
 		}
+		canonLocals(fd, []string{"s", "a"})
 		fmt.Fprintf(&sb, "/-- the packed `Action` method of the %s template -/\n", strings.ToLower(t[0]))
 		fmt.Fprintf(&sb, "def actionPacked%s (act off chk adef gdef : List Int) (nterminals errorAction : Int) (q a : Int) : Int :=\n", t[0])
 		sb.WriteString(aStmts(fd.Body.List, "  ") + "\n\n")
 		// the dense method must be the plain double index
-		if !strings.Contains(ms[1], "return StateActionArray[s.Yystate][a]") {
+		if !regexp.MustCompile(`func \((\w+) \*StateSym\) Action\((\w+) int\) int \{\s*return StateActionArray\[(\w+)\.Yystate\]\[(\w+)\]\s*\}`).MatchString(ms[1]) || !denseSameNames(ms[1]) {
 			panic(t[1] + ": dense Action is not `return StateActionArray[s.Yystate][a]`")
 		}
 	}
@@ -57,7 +58,7 @@ func genAction(repo, outdir string) {
 	if err != nil {
 		panic(err)
 	}
-	tsre := regexp.MustCompile(`Action\(a :number\) :number \{\s*return StateActionArray\[this\.Yystate\]\[a\]\s*\}`)
+	tsre := regexp.MustCompile(`Action\(\s*a\s*:\s*number\s*\)\s*:\s*number\s*\{\s*return\s+StateActionArray\[this\.Yystate\]\[a\]\s*;?\s*\}`)
 	if len(tsre.FindAllString(string(ts), -1)) != 1 {
 		panic("TsGenCode.go: Action is not `return StateActionArray[this.Yystate][a]`")
 	}
@@ -136,4 +137,10 @@ func aStmts(list []ast.Stmt, ind string) string {
 		return ind + "if " + aExpr(x.Cond) + " then\n" + aStmts(thenB, ind+"  ") + "\n" + ind + "else\n" + aStmts(elseB, ind+"  ")
 	}
 	panic(fmt.Sprintf("unsupported statement %T", s))
+}
+
+// denseSameNames: the dense Action indexes with its own receiver and parameter
+func denseSameNames(text string) bool {
+	m := regexp.MustCompile(`func \((\w+) \*StateSym\) Action\((\w+) int\) int \{\s*return StateActionArray\[(\w+)\.Yystate\]\[(\w+)\]\s*\}`).FindStringSubmatch(text)
+	return m != nil && m[1] == m[3] && m[2] == m[4]
 }
